@@ -43,3 +43,57 @@ def enums():
             if e not in seen:
                 seen.add(e); out.append(e)
     return out
+
+
+# ---------------------------------------------------------------- CRC-repairing mutations (C09 / C10)
+# A mutation of a unit that ends in a CRC-16 trailer is refused by the checksum verification before it reaches the code
+# behind it; recomputing the trailer lets length-field changes, truncations and substitutions through to that code.
+def crc_kind(d, u):
+    """how the checksum trailer of unit u of registry entry d is found: 'pus' (registry key "crc": trailer = last two
+    octets of the declared length), 'cfdp' (families 13-15, CRC flag = bit 1 of octet 0 set), None"""
+    if d.get("crc"):
+        return d["crc"]
+    if d.get("family") in (13, 14, 15) and d.get("declared_len") and len(u) >= 4 and u[0] & 2:
+        return "cfdp"
+    return None
+
+
+def declared(d, data):
+    try:
+        n = d["declared_len"](data)
+    except Exception:
+        return None
+    return n if isinstance(n, int) else None
+
+
+def repair(d, data, fill=0, limit=70000):
+    """(data', n): data with the trailer of the (mutated) unit at its head recomputed over the length n that unit now
+    declares; padded with `fill` when n exceeds the data.  None when the unit declares no usable length."""
+    from harness import pus_common as pc
+    n = declared(d, data)
+    if n is None or n < 2 or n > limit:
+        return None
+    p = list(data)
+    if len(p) < n:
+        p += [fill] * (n - len(p))
+    c = pc.fcrc(p[:n - 2])
+    p[n - 2] = c >> 8; p[n - 1] = c & 0xFF
+    return p, n
+
+
+def length_rewrites(d, u, kind, wide=False):
+    """the unit with its length field set to values around the true one and around the smallest the decoder can take"""
+    out = []
+    if kind == "pus":
+        true = u[4] * 256 + u[5]
+        vals = set(range(0, 30 if wide else 24)) | {true + k for k in range(-4, 4)}
+        pos = (4, 5)
+    else:
+        true = u[1] * 256 + u[2]
+        vals = set(range(0, 12 if wide else 8)) | {true + k for k in range(-6, 4)}
+        pos = (1, 2)
+    for v in sorted(vals):
+        if 0 <= v < 65536 and v != true:
+            q = list(u); q[pos[0]] = v >> 8; q[pos[1]] = v & 0xFF
+            out.append(q)
+    return out
